@@ -472,7 +472,11 @@ def write_graph_text(rng, nodes, node_text, edges, descriptors, fmt, shuffle=Tru
     out = []
     # ring-bond labels: the smallest free digit, or (valid just the same) two-digit %nn labels
     # (only in SMILES text: the coarse-graph reader has its own limits with %nn labels - C04, not judged here)
-    first_label = 1 if (not shuffle or fmt != "smiles" or rng.random() < 0.8) else rng.choice([10, 12, 37, 98])
+    # Two-digit labels only in SMILES text. In coarse definitions the unchanged reader does not accept them
+    # reliably (a definition that ends in a %nn label is reported as a dangling ring index because the cleaned
+    # text reaches read_cgsmiles without a closing brace; a label directly followed by '(' or ')' or by a
+    # one-digit label is misread): C04/C13 territory, which this technique does not judge.
+    first_label = 1 if (not shuffle or fmt != "smiles" or rng.random() < 0.8) else rng.choice([10, 12, 37, 90])
     late_descs = shuffle and rng.random() < 0.3      # descriptors written after the branches of their atom
 
     def ring_tokens(x):
